@@ -48,7 +48,10 @@ CHECKS["C03"] = (
     "(C03_final: flags never cleared, usage never drops across an operation, clock monotone); a dead token is refused by userinfo, "
     "reported inactive by introspection, refused by both token-endpoint parse steps and mints nothing in either process step; grant, "
     "client-session and recursive token revocation kill every token below; every token of another grant is left bit-identical "
-    "(four isolation theorems). Model tied to the real OIDC and OAuth2 providers on every run (every outcome + whole session state of "
+    "(four isolation theorems). remove-session and user-level revocation (logout-all) are operations of the model: after RemoveGrant no token "
+    "of the removed grant is honoured by any later operation and nothing else changes (C03_remove_session_final / _isolation, "
+    "C03_removed_forever); RevokeUser kills every token of every grant of the user for good and leaves other users bit-identical "
+    "(C03_cascade_user_session, C03_user_session_final, C03_isolation_user_session); real do_verified_logout flows. Model tied to the real OIDC and OAuth2 providers on every run (every outcome + whole session state of "
     "random and structured histories); the oracle keeps a reference liveness from the history alone and probes dead tokens out of band.",
     LEVEL_NOTE_COMMON + "Revoking the parent token cascades only through the recursive API / OIDC replay path (the revocation endpoint's "
     "default policy revokes exactly the presented token) - stated in DESIGN.md; token values abstracted (C04).",
